@@ -331,6 +331,23 @@ def run_tex(key):
         res["sample"] = {"case": key}
         return res
     res["n"] += base["calls"]
+    # the caller streams the next texture INTO THE SAME BUFFER (in place) and asks again: the
+    # answer is that of the new contents (seed C13h: scatter matrix memoised on the identity
+    # of the orientation array)
+    if q_id and n >= 2:
+        count("inplace_refill")
+        try:
+            buf = np.array(A0, float)
+            observe(buf, ba_pairs)
+            other = np.ascontiguousarray(A0[::-1] @ alph.GEN["g1"].T)
+            buf[...] = other
+            got = observe(buf, ba_pairs)
+            want = observe(other.copy(), ba_pairs)
+            res["n"] += 3 * got["calls"]
+            if not (all(np.array_equal(x, y, equal_nan=True) for x, y in zip(got["pgr"], want["pgr"])) and all(np.array_equal(x, y, equal_nan=True) for x, y in zip(got["mean"], want["mean"]))):
+                V("inplace_refill", "-", {"pgr_on_refilled_buffer": got["pgr"], "pgr_on_fresh_copy": want["pgr"]})
+        except Exception as e:
+            V("inplace_refill", "-", {"exception": type(e).__name__, "msg": str(e)[:200]}, exc=type(e).__name__)
     # the same numbers in Fortran memory order / as a transposed view: same diagnostics
     if q_id and n >= 2:
         for tag, Al in (("fortran", np.asfortranarray(A0)), ("tview", np.ascontiguousarray(A0.transpose(0, 2, 1)).transpose(0, 2, 1))):
